@@ -278,6 +278,9 @@ def c16(res, tier, seed, replay):
         runs.append({"name": f"tenancy-{i}", "timeout": 1200, "tlc_timeout": 1500,
                      "args": ["-seed", seed * 100 + i, "-hist", hists, "-steps", steps, "-conc", conc,
                               "-first", seed * 3 + i * hists, "-pairs", "all"]})
+    # the pairs in which one id is a file-name pattern matching the other (catalogue entries 4..7), whatever the seed selects above
+    runs.append({"name": "tenancy-patterns", "timeout": 1200, "tlc_timeout": 1500,
+                 "args": ["-seed", seed * 100 + 77, "-hist", 4, "-steps", steps, "-conc", conc, "-first", 4, "-pairs", "normal"]})
     nviol = len(res.violations)
     results = drive_and_validate(res, runs, module="TenancyTrace", cmd="tenancy", workers=min(vlib.NCPU, 8))
     _describe(res, results, nviol)
